@@ -105,7 +105,7 @@ theorem frame_alone (cfg : Config) (hc : cfg.cachesById = true) (h : List WorldO
 theorem use_changes_no_view (cfg : Config) (hc : cfg.cachesById = true) (W : List (String × TypeId))
     (w : World) (g : Good cfg W w) (op : WorldOp) (huse : plainUse op = true)
     (hq : quietStep cfg w op = true) (d : ClassId)
-    (hwf : ∀ e, alookup d w.classes = some e → e.core.src.fast = true → refsCreatable e = true) :
+    (hwf : ∀ e, alookup d w.classes = some e → e.core.src.fast = true → refsCreatable cfg e = true) :
     view cfg (stepW cfg w op).1 d = view cfg w d := by
   have p := pres_step_use hc g op huse hq
   refine view_eq_of_lookS hc p.1 g p.2.2 (p.2.1 d) ?_ (fun _ _ q _ => p.2.1 q.2)
@@ -119,7 +119,7 @@ theorem use_changes_no_view (cfg : Config) (hc : cfg.cachesById = true) (W : Lis
     no view at all (`created_pres`) -/
 theorem create_serializer_frame (cfg : Config) (hc : cfg.cachesById = true) (W : List (String × TypeId))
     (w : World) (g : Good cfg W w) (c : ClassId) (fl : SerFlags) (d : ClassId) (hd : c ≠ d)
-    (hwf : ∀ e, alookup d w.classes = some e → e.core.src.fast = true → refsCreatable e = true)
+    (hwf : ∀ e, alookup d w.classes = some e → e.core.src.fast = true → refsCreatable cfg e = true)
     (hnoref : ∀ e, alookup d w.classes = some e → ∀ p ∈ refFields e.core.fields, c ≠ p.2) :
     view cfg (stepW cfg w (.createSerializer c fl)).1 d = view cfg w d := by
   have cl := created_step hc g c fl
@@ -182,8 +182,8 @@ theorem safe_config_of_safe_tables (rows : List RegistryRec) (hs : SafeTables ro
     (configOf rows).safe = true := by
   simp [Config.safe, configOf, any_unsafe_false hs]
 
-/-- the part of the excluded region that does not depend on the table: the open finding about serializers
-    resolved through the MRO (see `quietStep`) -/
+/-- the part of the excluded region that does not depend on the registry switches: the finding about serializers
+    resolved through the MRO (see `quietStep`; vacuous when `cfg.serializerViaMro` is off) -/
 def fastRefsQuiet (cfg : Config) (w : World) : WorldOp → Bool
   | .define c src => quietStep cfg w (.define c src)
   | .createSerializer c fl => quietStep cfg w (.createSerializer c fl)
@@ -193,54 +193,88 @@ def fastRefsRun (cfg : Config) : World → List WorldOp → Bool
   | _, [] => true
   | w, op :: h => fastRefsQuiet cfg w op && fastRefsRun cfg (stepW cfg w op).1 h
 
-theorem quietRun_of_no_schema_write (cfg : Config) (hs : cfg.schemaWritesRequired = false) :
+theorem quietRun_of_fastRefsRun (cfg : Config) (hs : cfg.schemaWritesRequired = false) :
     ∀ (h : List WorldOp) (w : World), fastRefsRun cfg w h = true → quietRun cfg w h = true
   | [], _, _ => rfl
   | op :: h, w, hr => by
     simp only [fastRefsRun, Bool.and_eq_true] at hr
     simp only [quietRun, Bool.and_eq_true]
-    refine ⟨?_, quietRun_of_no_schema_write cfg hs h _ hr.2⟩
+    refine ⟨?_, quietRun_of_fastRefsRun cfg hs h _ hr.2⟩
     cases op <;> first | exact hr.1 | simp [quietStep, hs]
 
-/-- for a configuration whose switches are all off the excluded region is exactly the region of the open
-    finding: a FastSerializable class referring to a class whose serializer cannot be generated -/
-theorem excluded_of_safe (cfg : Config) (hs : cfg.safe = true) (h : List WorldOp)
-    (hr : fastRefsRun cfg World.initial h = true) : Excluded cfg h := by
+theorem fastRefsRun_of_no_mro (cfg : Config) (hm : cfg.serializerViaMro = false) :
+    ∀ (h : List WorldOp) (w : World), fastRefsRun cfg w h = true
+  | [], _ => rfl
+  | op :: h, w => by
+    simp only [fastRefsRun, Bool.and_eq_true]
+    refine ⟨?_, fastRefsRun_of_no_mro cfg hm h _⟩
+    cases op with
+    | define c src =>
+      simp only [fastRefsQuiet, quietStep, refsCreatable, hm, Bool.not_false, Bool.true_or, Bool.or_true]
+      split <;> rfl
+    | createSerializer c fl =>
+      simp only [fastRefsQuiet, quietStep, refsCreatable, hm, Bool.not_false, Bool.true_or]
+      split <;> rfl
+    | _ => rfl
+
+theorem quietRun_of_no_schema_write (cfg : Config) (hs : cfg.schemaWritesRequired = false)
+    (hm : cfg.serializerViaMro = false) (h : List WorldOp) (w : World) : quietRun cfg w h = true :=
+  quietRun_of_fastRefsRun cfg hs h w (fastRefsRun_of_no_mro cfg hm h w)
+
+theorem excluded_of_safe (cfg : Config) (hs : cfg.safe = true) (h : List WorldOp) : Excluded cfg h := by
   cases cfg with
-  | mk a b b2 c d e =>
-    cases a <;> cases d <;> simp [Config.safe] at hs
-    exact ⟨by simp, quietRun_of_no_schema_write _ rfl h World.initial hr⟩
+  | mk a b b2 c d e m =>
+    cases a <;> cases d <;> cases m <;> simp [Config.safe] at hs
+    exact ⟨by simp, quietRun_of_no_schema_write _ rfl rfl h World.initial⟩
 
 theorem cachesById_of_safe (cfg : Config) (hs : cfg.safe = true) : cfg.cachesById = true := by
   cases cfg with
-  | mk a b b2 c d e =>
-    cases a <;> cases b <;> cases b2 <;> cases c <;> cases d <;> cases e <;> simp [Config.safe, Config.cachesById] at *
+  | mk a b b2 c d e m =>
+    cases a <;> cases b <;> cases b2 <;> cases c <;> cases d <;> cases e <;> cases m <;>
+      simp [Config.safe, Config.cachesById] at *
 
-/-- C15 holds, outside the excluded region, for every configuration whose switches are all off … -/
-theorem C15_of_safe_config (cfg : Config) (hs : cfg.safe = true) : C15_partial cfg :=
-  fun T h c hx hcl hT => frame cfg (cachesById_of_safe cfg hs) T h hx hcl c hT
+/-- C15 at FULL strength holds for every configuration whose switches are all off … -/
+theorem C15_of_safe_config (cfg : Config) (hs : cfg.safe = true) : C15_statement cfg :=
+  fun T h c hcl hT => frame cfg (cachesById_of_safe cfg hs) T h (excluded_of_safe cfg hs h) hcl c hT
 
 /-- … in particular for the code whose registry table has only safe rows: identity-keyed caches, no
-    write onto another class, no in-place write to a class's definition attributes -/
-theorem frame_safe_tables (rows : List RegistryRec) (hs : SafeTables rows) : C15_partial (configOf rows) :=
+    write onto another class, no in-place write to a class's definition attributes, no decision through the MRO -/
+theorem frame_safe_tables (rows : List RegistryRec) (hs : SafeTables rows) : C15_statement (configOf rows) :=
   C15_of_safe_config _ (safe_config_of_safe_tables rows hs)
 
 /-! ### the current tree -/
 
-/-- the switches the World model runs with are all off for the CURRENT tree (identity-keyed registries
-    and caches, complete memo keys, no in-place write to `_required`, serializer written onto `cls`) -/
-theorem current_config_safe : (configOf Generated.registries).safe = true := by decide +kernel
+/-- the configuration of a tree whose only unsafe registry row is the MRO lookup in `_verify_is_fast_serializable`
+    (the open finding): every cache identity-keyed, nothing written in place, nothing frozen -/
+def mroCfg : Config := { safeConfig with serializerViaMro := true }
 
-/-- the rows of the current table that are NOT safe all describe state outside the World model: an
-    attribute written onto classes after definition that is read from another class once and captured by
-    a generated closure (nested fast serialization).  They are listed findings (`tables_ok`) and covered
-    by the fresh-interpreter oracle only. -/
+/-- switch-wise implication: every finding switch that is on in `a` is on in `b` -/
+def Config.le (a b : Config) : Bool :=
+  (!a.wrapperByName || b.wrapperByName) && (!a.mapperByName || b.mapperByName) &&
+  (!a.mapperDropsCamel || b.mapperDropsCamel) &&
+  (!a.simplicityByName || b.simplicityByName) && (!a.schemaWritesRequired || b.schemaWritesRequired) &&
+  (!a.serializerOnBase || b.serializerOnBase) && (!a.serializerViaMro || b.serializerViaMro)
+
+/-- the switches the World model runs with for the CURRENT tree: all off except, at most, the MRO lookup of the
+    open finding (off as well once the repair is in /repo — this theorem holds before and after) -/
+theorem current_config_le_mro : Config.le (configOf Generated.registries) mroCfg = true := by decide +kernel
+
+theorem props_of_le_mro {cfg : Config} (h : Config.le cfg mroCfg = true) :
+    cfg.cachesById = true ∧ cfg.schemaWritesRequired = false ∧ cfg.wrapperByName = false := by
+  cases cfg with
+  | mk a b b2 c d e m =>
+    cases a <;> cases b <;> cases b2 <;> cases c <;> cases d <;> cases e <;> cases m <;>
+      simp [Config.le, mroCfg, safeConfig, Config.cachesById] at *
+
+/-- the rows of the current table that are NOT safe are of the kinds of the listed findings: an attribute of
+    another class captured early by a generated closure, or read through the MRO to decide something -/
 theorem unsafe_rows_are_outside_model :
-    ∀ r ∈ Generated.registries, r.safe = false → r.kind = .earlyBoundClassAttr := by decide +kernel
+    ∀ r ∈ Generated.registries, r.safe = false → r.kind = .earlyBoundClassAttr ∨ r.kind = .mroRead := by
+  decide +kernel
 
 /-- every piece of process-wide state the extractor finds in the CURRENT tree is safe or a listed finding
-    — the obligation a new name-keyed cache, incomplete memo key, foreign-class write, in-place write or
-    early-bound capture breaks -/
+    — the obligation a new name-keyed / unkeyed cache, incomplete memo key, foreign-class write, in-place write,
+    early-bound capture, use-dependent Field state, frozen configuration or MRO-read decision breaks -/
 theorem tables_ok : ∀ r ∈ Generated.registries, r.safe = true ∨ r.findingKey ∈ Generated.knownFindingKeys := by
   decide +kernel
 
@@ -248,13 +282,35 @@ theorem tables_ok : ∀ r ∈ Generated.registries, r.safe = true ∨ r.findingK
     dependency-closed class set and every class in it, the class's view after the history is its view when
     defined alone (with its own serializer configurations) -/
 theorem C15_today_partial : C15_partial (configOf Generated.registries) :=
-  C15_of_safe_config _ current_config_safe
+  fun T h c hx hcl hT => frame _ (props_of_le_mro current_config_le_mro).1 T h hx hcl c hT
 
-/-- for the current tree the excluded region is exactly the region of the open finding -/
+/-- … and at FULL strength, with no excluded region, as soon as the table has no unsafe row left (the state
+    after the proposed repair) -/
+theorem C15_today_if_safe (hs : (configOf Generated.registries).safe = true) :
+    C15_statement (configOf Generated.registries) :=
+  C15_of_safe_config _ hs
+
+/-- since /repo 981c83d (the repair of the MRO finding) every switch the model reads off the table is off for the
+    CURRENT tree: identity-keyed registries and caches, complete memo keys, no in-place write to `_required`, serializer
+    written onto `cls`, the referenced class's OWN `__dict__` consulted -/
+theorem current_config_safe : (configOf Generated.registries).safe = true := by decide +kernel
+
+/-- C15 at FULL strength for the current tree: for every history, every dependency-closed class set and every class
+    in it, the class's view after the history is its view when defined alone (with its own serializer
+    configurations) — no excluded region -/
+theorem C15_today : C15_statement (configOf Generated.registries) :=
+  C15_today_if_safe current_config_safe
+
+/-- the excluded region of the general `frame` theorem is empty for the current tree -/
+theorem excluded_today_empty (h : List WorldOp) : Excluded (configOf Generated.registries) h :=
+  excluded_of_safe _ current_config_safe h
+
+/-- for a tree whose only finding switch is the MRO lookup the excluded region is exactly the region of that finding -/
 theorem excluded_today (h : List WorldOp)
     (hr : fastRefsRun (configOf Generated.registries) World.initial h = true) :
-    Excluded (configOf Generated.registries) h :=
-  excluded_of_safe _ current_config_safe h hr
+    Excluded (configOf Generated.registries) h := by
+  have hp := props_of_le_mro current_config_le_mro
+  exact ⟨by simp [hp.2.2], quietRun_of_fastRefsRun _ hp.2.1 h World.initial hr⟩
 
 /-- using any class in a coherent world of the current tree (construct, serialize, deserialize,
     structure_to_schema, trusted deserialization — every operation that does not configure a serializer)
@@ -262,26 +318,17 @@ theorem excluded_today (h : List WorldOp)
 theorem use_changes_no_view_today (W : List (String × TypeId)) (w : World)
     (g : Good (configOf Generated.registries) W w) (op : WorldOp) (huse : plainUse op = true)
     (d : ClassId)
-    (hwf : ∀ e, alookup d w.classes = some e → e.core.src.fast = true → refsCreatable e = true) :
+    (hwf : ∀ e, alookup d w.classes = some e → e.core.src.fast = true →
+      refsCreatable (configOf Generated.registries) e = true) :
     view (configOf Generated.registries) (stepW (configOf Generated.registries) w op).1 d
       = view (configOf Generated.registries) w d := by
-  have hs := current_config_safe
+  have hp := props_of_le_mro current_config_le_mro
   have hq : quietStep (configOf Generated.registries) w op = true := by
-    have hsw : (configOf Generated.registries).schemaWritesRequired = false := by
-      cases hc : configOf Generated.registries with
-      | mk a b b2 c d e => rw [hc] at hs; cases d <;> simp_all [Config.safe]
-    cases op <;> first | (simp [plainUse] at huse; done) | rfl | simp [quietStep, hsw]
-  exact use_changes_no_view _ (cachesById_of_safe _ hs) W w g op huse hq d hwf
+    cases op <;> first | (simp [plainUse] at huse; done) | rfl | simp [quietStep, hp.2.1]
+  exact use_changes_no_view _ hp.1 W w g op huse hq d hwf
 
-/-- switch-wise implication: every finding switch that is on in `a` is on in `b` -/
-def Config.le (a b : Config) : Bool :=
-  (!a.wrapperByName || b.wrapperByName) && (!a.mapperByName || b.mapperByName) &&
-  (!a.mapperDropsCamel || b.mapperDropsCamel) &&
-  (!a.simplicityByName || b.simplicityByName) && (!a.schemaWritesRequired || b.schemaWritesRequired) &&
-  (!a.serializerOnBase || b.serializerOnBase)
-
-/-- the tree the model is aligned with has every switch off -/
-theorem pinned_config : configOf Pinned.registries = safeConfig := by decide +kernel
+/-- the tree the model is aligned with has no finding switch on beyond the MRO lookup -/
+theorem pinned_config : Config.le (configOf Pinned.registries) mroCfg = true := by decide +kernel
 
 /-- the current tree has no finding switch on beyond those of the pinned tree -/
 theorem config_no_worse : Config.le (configOf Generated.registries) (configOf Pinned.registries) = true := by
@@ -289,7 +336,7 @@ theorem config_no_worse : Config.le (configOf Generated.registries) (configOf Pi
 
 /-- the configuration the tree had before /repo 2a0935f and 6efdaf1: wrapper registry name-keyed,
     `_required` written in place -/
-def findingsCfg : Config := ⟨true, false, false, false, true, false⟩
+def findingsCfg : Config := ⟨true, false, false, false, true, false, false⟩
 
 /-! ### the repaired defects: what the model does with the old switches on, and with today's table -/
 
@@ -394,7 +441,7 @@ theorem frame_example :
 /-! ### `camel_case_convert` as a use-parameter, positional arrays of several Structure item types -/
 
 /-- a tree whose mapper cache key omits the `camel_case_convert` argument -/
-def dropsCamelCfg : Config := ⟨false, false, true, false, false, false⟩
+def dropsCamelCfg : Config := ⟨false, false, true, false, false, false, false⟩
 
 def hCamel : List WorldOp :=
   [.define 0 clsS, .serialize 0 [("a", .prim 0 true), ("b", .prim 2 true)] true,
@@ -455,8 +502,6 @@ theorem nested_frame_example :
     ∧ Excluded (configOf Generated.registries) hNested
     ∧ slice (fun d => d ≤ 2) hNested
         = [.define 0 clsAcct, .define 1 clsPrem, .define 2 clsOrder, .createSerializer 1 ⟨true, false⟩]
-    ∧ ((runW (configOf Generated.registries) World.initial hNested).classes.map
-          fun p => (p.1, p.2.serializer.map (·.flags))).length = 6
     ∧ (view (configOf Generated.registries) (runW (configOf Generated.registries) World.initial hNested) 2).map (·.refSers)
         = some [("account", some ⟨["id", "level"], ⟨true, false⟩⟩), ("items", some ⟨["id"], .plain⟩)]
     ∧ view (configOf Generated.registries) (runW (configOf Generated.registries) World.initial hNested) 2
@@ -485,33 +530,38 @@ def clsOwner : ClassSrc := ⟨"Order", none, [ffld "n" (.prim 0), ffld "b" (.ref
 /-- `Gold(Account)` adds a field `create_serializer` cannot handle; `Order` refers to `Gold` (optional) -/
 def hMro : List WorldOp := [.define 0 clsAcct, .define 1 clsBad, .construct 0 [("id", .prim 0 true)], .define 2 clsOwner]
 
-/-- OPEN FINDING (mro-resolved-serialize-skips-generation:_verify_is_fast_serializable), on the model with
-    TODAY's table: once the base class `Account` was instantiated, `Gold.serialize` resolves (through the MRO)
-    to Account's generated serializer, `create_serializer(Order)` no longer looks at `Gold`, and `Order` can be
+/-- OPEN FINDING (mro-read:cls.serialize:_verify_is_fast_serializable), on the model configured as a tree that decides
+    through the MRO: once the base class `Account` was instantiated, `Gold.serialize` resolves (through the MRO) to
+    Account's generated serializer, `create_serializer(Order)` no longer looks at `Gold`, and `Order` can be
     instantiated; alone, generating Order's serializer tries to generate Gold's and raises -/
 theorem mro_serializer_breaks_frame :
     closed (fun d => d ≤ 2) hMro = true
-    ∧ (view (configOf Generated.registries) (runW (configOf Generated.registries) World.initial hMro) 2).map (·.instantiable)
-        = some true
-    ∧ (view (configOf Generated.registries)
-        (runW (configOf Generated.registries) World.initial (slice (fun d => d ≤ 2) hMro)) 2).map (·.instantiable)
-        = some false
-    ∧ (stepW (configOf Generated.registries) (runW (configOf Generated.registries) World.initial hMro)
-         (.construct 2 [("n", .prim 0 true)])).2.accepted = true
-    ∧ (stepW (configOf Generated.registries)
-         (runW (configOf Generated.registries) World.initial (slice (fun d => d ≤ 2) hMro))
+    ∧ (view mroCfg (runW mroCfg World.initial hMro) 2).map (·.instantiable) = some true
+    ∧ (view mroCfg (runW mroCfg World.initial (slice (fun d => d ≤ 2) hMro)) 2).map (·.instantiable) = some false
+    ∧ (stepW mroCfg (runW mroCfg World.initial hMro) (.construct 2 [("n", .prim 0 true)])).2.accepted = true
+    ∧ (stepW mroCfg (runW mroCfg World.initial (slice (fun d => d ≤ 2) hMro))
          (.construct 2 [("n", .prim 0 true)])).2.accepted = false
-    ∧ ¬ Excluded (configOf Generated.registries) hMro := by
+    ∧ ¬ Excluded mroCfg hMro := by
   decide +kernel
 
-/-- hence the full statement is false of TODAY's tree; `C15_today_partial` is what holds -/
-theorem C15_statement_fails_today : ¬ C15_statement (configOf Generated.registries) := by
+/-- hence the full statement is false of a tree with that lookup; `C15_partial` is what holds of it -/
+theorem C15_statement_fails_with_mro_lookup : ¬ C15_statement mroCfg := by
   intro h
   have h1 := h (fun d => d ≤ 2) hMro 2 mro_serializer_breaks_frame.1 (by decide)
   have h2 := mro_serializer_breaks_frame.2.1
   have h3 := mro_serializer_breaks_frame.2.2.1
   rw [h1, h3] at h2
   cases h2
+
+/-- the same history on a tree that consults the class's OWN `__dict__` (the proposed repair,
+    proposed_fixes/C15-mro-serializer-verification.diff): `Order` cannot be instantiated, before and after the use
+    of `Account`, and its view is the view alone; no history is excluded -/
+theorem mro_fixed_example :
+    (view safeConfig (runW safeConfig World.initial hMro) 2).map (·.instantiable) = some false
+    ∧ view safeConfig (runW safeConfig World.initial hMro) 2
+        = view safeConfig (runW safeConfig World.initial (slice (fun d => d ≤ 2) hMro)) 2
+    ∧ Excluded safeConfig hMro := by
+  decide +kernel
 
 /-! ### "behaves per its own definition" as a statement about Sem/Validate results -/
 
@@ -531,7 +581,7 @@ theorem construct_result_frame (cfg : Config) (hc : cfg.cachesById = true) (T : 
 theorem construct_result_unchanged_by_use (cfg : Config) (hc : cfg.cachesById = true) (W : List (String × TypeId))
     (w : World) (g : Good cfg W w) (op : WorldOp) (huse : plainUse op = true)
     (hq : quietStep cfg w op = true) (d : ClassId)
-    (hwf : ∀ e, alookup d w.classes = some e → e.core.src.fast = true → refsCreatable e = true)
+    (hwf : ∀ e, alookup d w.classes = some e → e.core.src.fast = true → refsCreatable cfg e = true)
     (O : Oracles) (env : DeclEnv) (kw : List (String × PyVal)) :
     (view cfg (stepW cfg w op).1 d).map (fun b => constructVal O env b kw)
       = (view cfg w d).map (fun b => constructVal O env b kw) := by
@@ -582,11 +632,8 @@ theorem use_state_frame_today (S : ClassId → Bool) (w : World) (op : WorldOp) 
       | .createSerializer c _ => S c = true
       | _ => False) :
     Untouched S w (stepW (configOf Generated.registries) w op).1 := by
-  have hs := current_config_safe
-  have hsw : (configOf Generated.registries).schemaWritesRequired = false := by
-    cases hc : configOf Generated.registries with
-    | mk a b b2 c d e => rw [hc] at hs; cases d <;> simp_all [Config.safe]
-  exact use_untouched (cachesById_of_safe _ hs) w op hcl hop hsw
+  have hp := props_of_le_mro current_config_le_mro
+  exact use_untouched hp.1 w op hcl hop hp.2.1
 
 /-- non-vacuity: in the world after the three definitions of `hNested` plus an unrelated class 5,
     `create_serializer(Order)` changes the entries of Order (2), Premium (1) and Account (0) — the classes Order
